@@ -496,6 +496,9 @@ impl TableHandler {
     pub fn new(mode: InvMode) -> Self {
         Self { mode, accept_all: false, deny_mask: 0, seen: [None; 4], calls: Vec::new(), record_calls: false }
     }
+    pub fn should_add(&self, member: &Id) -> bool {
+        member.addr >= 8 || self.deny_mask & (1 << member.addr) == 0
+    }
     /// Harness-side prediction of `receive_item` without side effects.
     pub fn would_accept(&self, data: &[u8]) -> Result<Option<BKey>, HandlerErr> {
         if data.is_empty() || data[0] == 0xFF {
